@@ -382,17 +382,32 @@ func fbFrontEnd() (*fbServer, string, *grpc.ClientConn) {
 		if err != nil {
 			panic(err)
 		}
-		c.Connect()
-		ctx, cancel := context.WithTimeout(context.Background(), 20*time.Second)
-		defer cancel()
-		for c.GetState() != connectivity.Ready {
-			if !c.WaitForStateChange(ctx, c.GetState()) {
-				panic("fake BESS front end: connection did not become ready")
-			}
+		if !vWaitChannel(c, true, 60*time.Second) {
+			panic("fake BESS front end: connection did not become ready")
 		}
 		fbReadyCon = c
 	})
 	return fbSrv, fbSrvAddr, fbReadyCon
+}
+
+// vWaitChannel waits (in real time) until the channel is READY (ready=true) or has left READY (ready=false). The state is
+// read ONCE per round: reading it again for WaitForStateChange would wait for a change from a state the channel may
+// just have reached - a race that made this wait time out at random under load.
+func vWaitChannel(conn *grpc.ClientConn, ready bool, limit time.Duration) bool {
+	ctx, cancel := context.WithTimeout(context.Background(), limit)
+	defer cancel()
+	for {
+		st := conn.GetState()
+		if (st == connectivity.Ready) == ready {
+			return true
+		}
+		if ready {
+			conn.Connect()
+		}
+		if !conn.WaitForStateChange(ctx, st) {
+			return false
+		}
+	}
 }
 
 // fbFreshReadyConn returns a Ready client connection, re-dialling when the shared one was closed (bess.Exit closes the
@@ -408,16 +423,7 @@ func fbFreshReadyConn() *grpc.ClientConn {
 		if err != nil {
 			panic("VERIF-INFRA: " + err.Error())
 		}
-		nc.Connect()
-		ctx, cancel := context.WithTimeout(context.Background(), 15*time.Second)
-		ok := true
-		for nc.GetState() != connectivity.Ready {
-			if !nc.WaitForStateChange(ctx, nc.GetState()) {
-				ok = false
-				break
-			}
-		}
-		cancel()
+		ok := vWaitChannel(nc, true, 15*time.Second)
 		if ok {
 			fbReadyCon = nc
 			return nc
